@@ -505,6 +505,26 @@ func (g *gen) rewritePkgRefs(info *types.Info, node ast.Node) ast.Node {
 	}
 	var scopeStack []*types.Scope
 	pkgScope := g.pkg.Types.Scope()
+	pickName := func(objName string) string {
+		return disambiguate(objName, func(n string) bool {
+			if g.nameInFileScope(n) || inNewNames(n) || present[n] {
+				return true
+			}
+			if len(scopeStack) > 0 {
+				// Avoid picking a name that conflicts with other names in the
+				// current scope.
+				_, obj := scopeStack[len(scopeStack)-1].LookupParent(n, token.NoPos)
+				if obj != nil {
+					return true
+				}
+			}
+			return false
+		})
+	}
+	// The symbolic variable of a type switch (switch x := v.(type)) declares
+	// no object itself; each clause has an implicit variable positioned at x.
+	// guardNames maps that position to the spelling used in the copy.
+	guardNames := make(map[token.Pos]string)
 	node = astutil.Apply(node, func(c *astutil.Cursor) bool {
 		if scope := info.Scopes[c.Node()]; scope != nil {
 			scopeStack = append(scopeStack, scope)
@@ -515,9 +535,26 @@ func (g *gen) rewritePkgRefs(info *types.Info, node ast.Node) ast.Node {
 		}
 		obj := info.ObjectOf(id)
 		if obj == nil {
-			// We rewrote this identifier earlier, so it does not need
-			// further rewriting.
+			if as, ok := c.Parent().(*ast.AssignStmt); ok && c.Name() == "Lhs" && isTypeSwitchGuard(as) {
+				name := id.Name
+				if g.nameInFileScope(name) || inNewNames(name) {
+					name = pickName(name)
+					guardNames[id.Pos()] = name
+					c.Replace(ast.NewIdent(name))
+					return false
+				}
+				guardNames[id.Pos()] = name
+			}
+			// Otherwise we rewrote this identifier earlier, so it does not
+			// need further rewriting.
 			return true
+		}
+		if n, ok := guardNames[obj.Pos()]; ok {
+			// A clause's implicit variable: follow the symbolic variable.
+			if n != id.Name {
+				c.Replace(ast.NewIdent(n))
+			}
+			return false
 		}
 		if n, ok := newNames[obj]; ok {
 			// We picked a new name for this symbol. Rewrite it.
@@ -535,20 +572,7 @@ func (g *gen) rewritePkgRefs(info *types.Info, node ast.Node) ast.Node {
 		if pos := obj.Pos(); pos < start || end <= pos || !(g.nameInFileScope(objName) || inNewNames(objName)) {
 			return true
 		}
-		newName := disambiguate(objName, func(n string) bool {
-			if g.nameInFileScope(n) || inNewNames(n) || present[n] {
-				return true
-			}
-			if len(scopeStack) > 0 {
-				// Avoid picking a name that conflicts with other names in the
-				// current scope.
-				_, obj := scopeStack[len(scopeStack)-1].LookupParent(n, token.NoPos)
-				if obj != nil {
-					return true
-				}
-			}
-			return false
-		})
+		newName := pickName(objName)
 		newNames[obj] = newName
 		c.Replace(ast.NewIdent(newName))
 		return false
@@ -560,6 +584,15 @@ func (g *gen) rewritePkgRefs(info *types.Info, node ast.Node) ast.Node {
 		return true
 	})
 	return node
+}
+
+// isTypeSwitchGuard reports whether as is the "x := v.(type)" of a type switch.
+func isTypeSwitchGuard(as *ast.AssignStmt) bool {
+	if as.Tok != token.DEFINE || len(as.Lhs) != 1 || len(as.Rhs) != 1 {
+		return false
+	}
+	ta, ok := as.Rhs[0].(*ast.TypeAssertExpr)
+	return ok && ta.Type == nil
 }
 
 // writeAST prints an AST node into the generated output, rewriting any
